@@ -71,7 +71,8 @@ def run(chk, prog):
                    'the notification loop iterates the map returned by complete_variable_observation',
                    'notify_variable_changed is not driven by a loop over the result of complete_variable_observation '
                    '(in loop: %s, name derives from the result: %s)' % (in_loop, from_map), ci.loc(nb))
-    dyn = [(bb, t) for bb, t in nvc.calls() if is_dyn_call(t) and callee_short(t).endswith('VariableObserver::changed')]
+    dyn = [(bb, t) for g_ in prog.with_closures(nvc) for bb, t in g_.calls()
+           if is_dyn_call(t) and callee_short(t).endswith('VariableObserver::changed')]
     chk.decide(RA, chk.key(RA, 'one-dyn-call'), len(dyn) == 1, 'one dyn call site VariableObserver::changed',
                'notify_variable_changed has %d dyn call sites of VariableObserver::changed' % len(dyn), nvc.loc(0))
 
@@ -96,8 +97,15 @@ def run(chk, prog):
                    'a look-ahead rewind (restore_state_snapshot) can run after observers were notified: they would have '
                    'seen a value that is then rolled back', ci.loc(bb))
     # values from global_variables
-    reads_globals = any('field:VariablesState::global_variables' in tr.prov(cvo, t['args'][0])
-                        for bb, t in cvo.calls() if callee_short(t) in ('HashMap::get', 'HashMap::get_mut'))
+    reads_globals = False
+    for g_ in prog.with_closures(cvo):
+        for bb, t in g_.calls():
+            if callee_short(t) in ('HashMap::get', 'HashMap::get_mut', 'HashMap::get_key_value') and t['args']:
+                at = tr.prov(g_, t['args'][0])
+                if 'field:VariablesState::global_variables' in at or any(
+                        a.startswith('upvar:') and 'global_variables' in a for a in at) or (
+                        g_.parent and 'closure_env' in at and any('global' in a for a in at)):
+                    reads_globals = True
     chk.decide(RB, chk.key(RB, 'values-from-globals'), reads_globals,
                'values are read from global_variables at completion time',
                'complete_variable_observation no longer reads the committed values from global_variables', cvo.loc(0))
